@@ -18,7 +18,7 @@ ASSUMPTIONS = ["the catalog entries are ABI-neutral by construction of the C/C++
 @st.composite
 def strategy_(draw, tier):
     big = tier == "thorough"
-    m = draw(S.library(lang="any", max_types=10 if big else 7, max_funcs=6, symfeatures=True))
+    m = draw(S.library(lang="any", max_types=10 if big else 7, max_funcs=6, symfeatures=True, tu_private=30))
     cfg = draw(S.build_config(kinds=("shared", "shared", "rel")))
     m2, info = MU.neutral(draw, m)
     return {"model": m, "cfg": cfg, "mutant": m2, "info": info}
